@@ -36,7 +36,7 @@ pub fn hist(max_len: usize, wmodes: &'static [u8]) -> BoxedStrategy<HistCase> {
         proptest::option::weighted(0.15, (vec((name(), attr()), 0..5), vec((name(), name(), w()), 0..6))),
         vec(op(), 0..=max_len),
     )
-        .prop_map(|(spec, wmode, ctor, ops)| HistCase { spec, wmode, ctor, ops })
+        .prop_map(|(spec, wmode, ctor, ops)| HistCase { universe: 6, spec, wmode, ctor, ops })
         .boxed()
 }
 
@@ -67,8 +67,22 @@ pub fn enumerate_histories(wmode: u8) -> Vec<HistCase> {
     let mut out = vec![];
     for spec in 0..96u8 {
         for s in &seqs {
-            out.push(HistCase { spec, wmode, ctor: None, ops: s.clone() });
+            out.push(HistCase { universe: 6, spec, wmode, ctor: None, ops: s.clone() });
         }
     }
     out
+}
+
+/// "big" histories: a universe of 34..=64 names and 40..=160 operations, most of them edges
+/// incident to one of two hub names (in either orientation), so that nodes with dozens of
+/// neighbours, node sets with more than 16 members and long adjacency lists arise
+pub fn hist_big(wmodes: &'static [u8]) -> BoxedStrategy<HistCase> {
+    let hub_edge = (0u8..2, any::<u8>(), any::<bool>(), w()).prop_map(|(h, x, flip, w)| if flip { Op::AddEdge(x, h, w) } else { Op::AddEdge(h, x, w) });
+    let any_edge = (any::<u8>(), any::<u8>(), w()).prop_map(|(u, v, w)| Op::AddEdge(u, v, w));
+    let node = (any::<u8>(), attr()).prop_map(|(n, a)| Op::AddNode(n, a));
+    let batch = vec((any::<u8>(), any::<u8>(), w()), 0..6).prop_map(Op::AddEdges);
+    let op = prop_oneof![10 => hub_edge, 4 => any_edge, 2 => node, 1 => batch];
+    (34u8..=64, 0u8..96, proptest::sample::select(wmodes), vec(op, 40..=160))
+        .prop_map(|(universe, spec, wmode, ops)| HistCase { universe, spec, wmode, ctor: None, ops })
+        .boxed()
 }
